@@ -139,6 +139,23 @@ Proof.
   all: split; [intros _; lia | intros _; apply small_count_flagged; cbn; lia].
 Qed.
 
+(* box cells (unequal edges): the code may report MORE than the orthogonal corner for a row (fall-back branch of `_solid_angle` for
+   coplanar triples), never less, because the three edge neighbours are among the triples the maximum is taken over.  Whatever the
+   per-row values are, a node all of whose eight cells contribute at least PI/2 is not flagged, and a node is flagged as soon as
+   its sum stays below 4 PI - 1e-5 -- this is what the harness checks for box cells (lower bound by vm_compute + flag). *)
+Theorem interior_not_flagged_from_lower_bound nx ny nz i j k (Es : R) :
+  (1 <= nx)%nat -> (1 <= ny)%nat -> (1 <= nz)%nat ->
+  (0 < i < Z.of_nat nx)%Z -> (0 < j < Z.of_nat ny)%Z -> (0 < k < Z.of_nat nz)%Z ->
+  INR (incident nx ny nz i j k) * (PI / 2) <= Es -> ~ Es < 4 * PI - 1 / 100000.
+Proof.
+  intros Hx Hy Hz Hi Hj Hk Hlb. rewrite incident_closed_form in Hlb.
+  destruct (inc1_range nx i Hx ltac:(lia)) as [[_ B]|[Ei _]]; [lia|].
+  destruct (inc1_range ny j Hy ltac:(lia)) as [[_ B]|[Ej _]]; [lia|].
+  destruct (inc1_range nz k Hz ltac:(lia)) as [[_ B]|[Ek _]]; [lia|].
+  rewrite Ei, Ej, Ek in Hlb. change (2 * 2 * 2)%nat with 8%nat in Hlb.
+  assert (E8 : INR 8 = 8) by (simpl; lra). rewrite E8 in Hlb. pose proof PI_RGT_0. lra.
+Qed.
+
 (* the hypotheses are satisfiable and both outcomes occur *)
 Example flagged_examples :
   incident 3 2 2 0 1 1 = 4%nat /\ incident 3 2 2 1 1 1 = 8%nat /\ incident 3 2 2 3 2 0 = 1%nat /\ incident 1 1 1 1 0 1 = 1%nat.
